@@ -275,7 +275,13 @@ func genHeader(rng *rand.Rand, curve gen.Curve) *refHeader {
 	h.Body = rbytes(rng, bl)
 	nAD := rng.IntN(5)
 	for i := 0; i < nAD; i++ {
-		d := rbytes(rng, rlen(rng, 40))
+		n := rlen(rng, 40)
+		if rng.IntN(6) == 0 {
+			// large pieces (earlier AS entries with many peers or static info)
+			// next to small ones: sizes around typical buffering thresholds
+			n = []int{255, 256, 511, 512, 513, 1023, 1024, 4096, 5000}[rng.IntN(9)] + rng.IntN(3)
+		}
+		d := rbytes(rng, n)
 		h.AD = append(h.AD, d)
 		h.ADLen += int64(len(d))
 	}
